@@ -4,6 +4,7 @@ Property theorems about `AddrLock` (model of waddrmgr's lock state, buffers and 
 -/
 import BtcwVerif.Lemmas.AddrLock
 import BtcwVerif.Lemmas.AddrDou
+import BtcwVerif.Lemmas.AddrWipedStep
 namespace AddrLock
 
 /-! ## 1. `C05_denied`: while locked or watching-only every private-material operation is refused -/
@@ -109,62 +110,13 @@ theorem C05_counterexample_F1 :
 
 /-! ## 2. `C05_wiped`: locking clears every clear-text key buffer -/
 
-/-- every in-memory clear-text copy of master, crypto, account and address private keys (and the cached derived
-keys) is nil / zero.  Script clear text: the P2SH script buffers are included; secret witness / taproot script
-clear text is NOT (observation O1: `lock()` has no case for those types; scripts are not private keys). -/
-structure KeyClear (m : Mem) : Prop where
-  master  : m.masterPriv ≠ .nonzero
-  cpriv   : m.cryptoPriv ≠ .nonzero
-  cscript : m.cryptoScript ≠ .nonzero
-  hashed  : m.hashed = none
-  acct    : ∀ sc, sc < nScopes → ∀ p ∈ (m.scopes sc).acctInfo, p.2.keyPriv = false
-  pkc     : ∀ sc, sc < nScopes → (m.scopes sc).pkc = []
-  addrs   : ∀ sc, sc < nScopes → ∀ p ∈ (m.scopes sc).addrs,
-              ((m.heap p.2).kind = .managed ∨ (m.heap p.2).kind = .script) → (m.heap p.2).ct = false
-  last    : ∀ sc, sc < nScopes → ∀ p ∈ (m.scopes sc).acctInfo,
-              ((m.heap p.2.lastExt).kind = .managed → (m.heap p.2.lastExt).ct = false) ∧
-              ((m.heap p.2.lastInt).kind = .managed → (m.heap p.2.lastInt).ct = false)
-
-theorem zeroed_ne (b : Buf) : b.zeroed ≠ .nonzero := by cases b <;> simp [Buf.zeroed]
-
-theorem mem_range_nScopes {sc : Nat} (h : sc < nScopes) : sc ∈ List.range nScopes := List.mem_range.mpr h
+-- `KeyClear m` (every in-memory clear-text copy of master, crypto, account and address private keys, and the cached
+-- derived keys, is nil / zero; P2SH script clear text included, secret witness / taproot script clear text NOT —
+-- observation O1) is defined in `Lemmas/AddrWiped.lean`, where it is carried through the operations.
 
 /-- `Manager.lock()` on the fixed tree (f1: cache purge, f11: last addresses) clears everything, from ANY state. -/
 theorem C05_wiped_by_lock (cfg : Cfg) (hf1 : cfg.f1 = true) (hf11 : cfg.f11 = true) (m : Mem) :
-    KeyClear (lockMem cfg m) := by
-  refine ⟨zeroed_ne _, zeroed_ne _, zeroed_ne _, rfl, ?_, ?_, ?_, ?_⟩
-  · intro sc _ p hp
-    simp only [lockMem, lockScope, List.mem_map] at hp
-    obtain ⟨q, _, rfl⟩ := hp
-    rfl
-  · intro sc _; simp [lockMem, lockScope, hf1]
-  · intro sc hsc p hp hk
-    simp only [lockMem, lockScope] at hp hk ⊢
-    have hw : shouldWipe cfg m p.2 = true := by
-      simp only [shouldWipe, List.any_eq_true, Bool.or_eq_true, Bool.and_eq_true]
-      refine ⟨sc, mem_range_nScopes hsc, Or.inl ⟨?_, p, hp, by simp⟩⟩
-      by_cases hwp : shouldWipe cfg m p.2 = true
-      · simp only [hwp, if_true] at hk; simpa using hk
-      · simp only [hwp] at hk; simpa using hk
-    simp [hw]
-  · intro sc hsc p hp
-    simp only [lockMem, lockScope, List.mem_map] at hp ⊢
-    obtain ⟨q, hq, rfl⟩ := hp
-    dsimp only
-    have key : ∀ id, (id = q.2.lastExt ∨ id = q.2.lastInt) →
-        ((if shouldWipe cfg m id = true then { m.heap id with ct := false } else m.heap id).kind = .managed →
-         (if shouldWipe cfg m id = true then { m.heap id with ct := false } else m.heap id).ct = false) := by
-      intro id hid hk
-      have hk' : (m.heap id).kind = .managed := by
-        by_cases hwp : shouldWipe cfg m id = true
-        · simp only [hwp, if_true] at hk; exact hk
-        · simp only [hwp] at hk; exact hk
-      have hw : shouldWipe cfg m id = true := by
-        simp only [shouldWipe, List.any_eq_true, Bool.or_eq_true, Bool.and_eq_true]
-        refine ⟨sc, mem_range_nScopes hsc, Or.inr ⟨⟨hf11, by simp [hk']⟩, q, hq, ?_⟩⟩
-        rcases hid with h | h <;> simp [h]
-      simp [hw]
-    exact ⟨key _ (Or.inl rfl), key _ (Or.inr rfl)⟩
+    KeyClear (lockMem cfg m) := keyClear_lockMem cfg hf1 hf11 m
 
 /-- `Lock()` that succeeds leaves every key buffer clear — for every state, hence after every history. -/
 theorem C05_wiped (cfg : Cfg) (hf1 : cfg.f1 = true) (hf11 : cfg.f11 = true) (m : Mem)
@@ -191,7 +143,8 @@ theorem C05_counterexample_F11 :
 
 /-- F13 (tree without the fix): the OnCommit closure of nextAddresses re-inserts address objects that were
 built while unlocked; if the manager is locked between the call and the commit, the cache holds a clear-text key
-while locked.  So "stays clear while locked" is NOT an invariant of bracketed histories. -/
+while locked.  So "stays clear while locked" is NOT an invariant of bracketed histories on such a tree; on the
+current tree (f13) it is: `C05_wiped_histories`. -/
 theorem C05_counterexample_F13 :
     let s := run {cfg := { Cfg.fixed with f13 := false }} [.create 5 1, .unlock 1, .begin, .next 1 0 1 false, .lock, .commit]
     lockedOf s = some true ∧ addrCT s 1 (.chain 0 0 0) = some true := by
@@ -492,12 +445,7 @@ theorem passOK_exec (s : State) (m : Mem) (hs : s.mem = some m) (op : Op) (h : P
 /-- the passphrase bookkeeping invariant at the level of states -/
 def StPassOK (s : State) : Prop := ∀ m, s.mem = some m → PassOK m
 
-theorem exec_cfg (s : State) (m : Mem) (op : Op) : (exec s m op).1.cfg = s.cfg := by
-  cases op <;> simp only [exec] <;> (repeat' split) <;> rfl
-
-theorem step_cfg (s : State) (op : Op) : (step s op).1.cfg = s.cfg := by
-  unfold step
-  cases op <;> simp only [] <;> (repeat' split) <;> first | rfl | (simp only [rollbackTx, commitTx, exec_cfg])
+-- `exec_cfg` / `step_cfg` / `run_cfg` (the configuration never changes) live in `Lemmas/AddrDou.lean`.
 
 theorem passOK_commitTx (s : State) (h : StPassOK s) : StPassOK (commitTx s) := by
   intro m hm
@@ -549,11 +497,6 @@ theorem passOK_step (s : State) (op : Op) (h : StPassOK s) (hc : s.cfg.f12 = tru
     split
     · exact h
     · rename_i m hs; exact generic m hs
-
-theorem run_cfg (s : State) (ops : List Op) : (run s ops).cfg = s.cfg := by
-  induction ops generalizing s with
-  | nil => rfl
-  | cons op ops ih => simp only [run]; rw [ih, step_cfg]
 
 theorem passOK_run (s : State) (ops : List Op) (h : StPassOK s)
     (hc : s.cfg.f12 = true ∨ ∀ op ∈ ops, op.noEmpty = true) : StPassOK (run s ops) := by
@@ -670,6 +613,38 @@ example :
        .changePass 1 EMPTY true, .reopen 5, .q (.props 1 2), .next 1 1 1 false]
     (s.mem.map fun m => (m.watchOnly, m.privPass, (step s (.unlock EMPTY)).2, (step s (.unlock 1)).2)) =
       some (false, EMPTY, .ok, .err .wrongPassphrase) := by
+  decide
+
+/-! ### "stays wiped while locked", over ALL histories, on the current tree
+
+`C05_wiped_by_lock` / `C05_wiped` above say that locking wipes.  Before the F13 fix (/repo bb83ae8, flag f13) that
+was all that could be proved: `C05_counterexample_F13` shows a bracketed history after which a LOCKED manager caches a
+clear-text key.  On the current tree the full statement holds: -/
+
+/-- In EVERY state reachable from `create` by ANY history of model operations (brackets, commits of closures
+registered before a Lock, rollbacks, imports, watch-only accounts, passphrase changes, restarts, failed and
+successful unlocks) on the current tree, a LOCKED manager holds no clear-text key: master / crypto / script keys and
+the hashed passphrase are nil or zero, no cached account has its private key, the derived-key cache is empty, and
+every address object in `s.addrs` and every cached last-address object is wiped (`KeyClear`). -/
+theorem C05_wiped_histories (cfg : Cfg) (hfix : cfg.allFixed) (ops : List Op) (m : Mem)
+    (hm : (run { cfg := cfg } ops).mem = some m) (hl : m.locked = true) : KeyClear m :=
+  ((stW_run { cfg := cfg } ⟨hfix.1, hfix.2.2.2.2.1, hfix.2.2.1, hfix.2.2.2.2.2.2.1⟩ ops (stW_init cfg)).mem m hm).1 hl
+
+/-- the same statement with only the four flags it depends on: f1 (28aa715), f11 (15e7986), f2b (2a11dd6: Unlock
+cannot stop half-way with a panic, keys restored and `locked` still set), f13 (bb83ae8). -/
+theorem C05_wiped_histories_flags (cfg : Cfg) (hf1 : cfg.f1 = true) (hf11 : cfg.f11 = true) (hf2b : cfg.f2b = true)
+    (hf13 : cfg.f13 = true) (ops : List Op) (m : Mem)
+    (hm : (run { cfg := cfg } ops).mem = some m) (hl : m.locked = true) : KeyClear m :=
+  ((stW_run { cfg := cfg } ⟨hf1, hf11, hf2b, hf13⟩ ops (stW_init cfg)).mem m hm).1 hl
+
+/-- non-vacuity: the history of `C05_counterexample_F13` extended by more bracketed issuing, a failed Unlock of an
+unlocked manager and a conversion reaches locked states (with cached addresses and accounts) on the current tree. -/
+example :
+    let s := run { cfg := Cfg.fixed }
+      [.create 5 1, .unlock 1, .q (.lastAddr 1 0 false), .begin, .next 1 0 2 false, .importKey 1 7 true, .lock, .commit,
+       .unlock 1, .derive 1 0 0 5, .deriveCache 1 0 0 5, .begin, .next 1 0 1 true, .unlock 9, .commit]
+    lockedOf s = some true ∧ addrCT s 1 (.chain 0 0 1) = some false ∧ addrCT s 1 (.chain 0 1 0) = some false ∧
+    addrCT s 1 (.imp 7) = some false ∧ lastExtCT s 1 0 = some false := by
   decide
 
 /-- non-vacuity: a concrete history with accounts, a watch-only account, addresses issued while locked, and a
